@@ -173,11 +173,12 @@ contract("qubovert.utils._dict_arithmetic:DictArithmetic.__imul__", props=["C05"
                    "isnumber(other) or distinct(self, other)"],
          returns="param:self", modifies=STORE_BK,
          ensures=["den(self) == old(den(self)) * (other if isnumber(other) else den_as(self, other))",
-                  "wf(self)", "result is self", "implies(old(bk(self)), bk(self))", AF_INPLACE],
-         loops={1: {"invariant": "den(self) == den_as(self, visited) * den_as(self, other) and wf(self) and implies(old(bk(self)), bk(self)) and " + AF_INPLACE},
+                  "wf(self)", "result is self", "implies(old(bk(self)), bk(self))", AF_INPLACE,
+                  "implies(old(mapinv(self)), mapinv(self))"],
+         loops={1: {"invariant": "den(self) == den_as(self, visited) * den_as(self, other) and wf(self) and implies(old(bk(self)), bk(self)) and implies(old(mapinv(self)), mapinv(self)) and " + AF_INPLACE},
                 2: {"invariant": "den(self) == den_as(self, visited1) * den_as(self, other) + "
-                                 "v * mono_as(self, k) * den_as(self, visited2) and wf(self) and implies(old(bk(self)), bk(self)) and " + AF_INPLACE},
-                3: {"invariant": "den(self) == den_as(self, coll) + (other - 1) * den_as(self, visited) and wf(self) and implies(old(bk(self)), bk(self)) and " + AF_SELF1 + " and "
+                                 "v * mono_as(self, k) * den_as(self, visited2) and wf(self) and implies(old(bk(self)), bk(self)) and implies(old(mapinv(self)), mapinv(self)) and " + AF_INPLACE},
+                3: {"invariant": "den(self) == den_as(self, coll) + (other - 1) * den_as(self, visited) and wf(self) and implies(old(bk(self)), bk(self)) and implies(old(mapinv(self)), mapinv(self)) and " + AF_SELF1 + " and "
                                  "forall_key(lambda q: implies(not has(visited, q), has(self, q) == has(coll, q) and "
                                  "lookup(self, q) == lookup(coll, q)))"}})
 
@@ -185,8 +186,9 @@ contract("qubovert.utils._dict_arithmetic:DictArithmetic.__itruediv__", props=["
          instances=[{"self": "model:" + c, "other": "real"} for c in ALL],
          requires=["wf(self)", "other != 0"],
          returns="param:self", modifies=STORE_BK,
-         ensures=["den(self) * other == old(den(self))", "wf(self)", "result is self", "implies(old(bk(self)), bk(self))", AF_SELF1],
-         loops={1: {"invariant": "den(self) * other == den_as(self, coll) * other + (1 - other) * den_as(self, visited) and wf(self) and implies(old(bk(self)), bk(self)) and " + AF_SELF1 + " and "
+         ensures=["den(self) * other == old(den(self))", "wf(self)", "result is self", "implies(old(bk(self)), bk(self))", AF_SELF1,
+                  "implies(old(mapinv(self)), mapinv(self))"],
+         loops={1: {"invariant": "den(self) * other == den_as(self, coll) * other + (1 - other) * den_as(self, visited) and wf(self) and implies(old(bk(self)), bk(self)) and implies(old(mapinv(self)), mapinv(self)) and " + AF_SELF1 + " and "
                                  "forall_key(lambda q: implies(not has(visited, q), has(self, q) == has(coll, q) and "
                                  "lookup(self, q) == lookup(coll, q)))"}})
 
@@ -195,7 +197,8 @@ contract("qubovert.utils._dict_arithmetic:DictArithmetic.__ipow__", props=["C05"
                    [{"self": "model:" + c, "exponent": "const:1"} for c in ("QUBO", "QUSO", "QUBOMatrix", "QUSOMatrix")],
          requires=["wf(self)"],
          returns="param:self", modifies=STORE_BK,
-         ensures=["den(self) == old(den(self)) ** exponent", "wf(self)", "result is self", "implies(old(bk(self)), bk(self))", AF_SELF1],
+         ensures=["den(self) == old(den(self)) ** exponent", "wf(self)", "result is self", "implies(old(bk(self)), bk(self))", AF_SELF1,
+                  "implies(old(mapinv(self)), mapinv(self))"],
          note="exponents 1..3 (concretely unrolled); symbolic exponents are left to the bounded stand-in")
 contract("qubovert.utils._dict_arithmetic:DictArithmetic.__ipow__#err", props=["C05"], trusted=True,
          instances=[], note="placeholder") if False else None
